@@ -22,6 +22,8 @@ CLAIMED = {
                 note="E7 (Lock, Condition.wait atomic release/re-acquire), time.time non-decreasing (reals), atomic attribute store, distinct elements. 'A blocked get() returns after close()' is liveness: only the signalling discipline is proved.", ref="4/C17"),
     "C16": dict(text="SkipRepeatsQueue under the queue mutex: invariant relating _last_item to a ghost enqueue history (None, or the last enqueued item which is still waiting); _put/_get preserve it and stay within the rely; _get is FIFO and forgets the last item iff that very item is taken out; put() drops only when, at its read of _last_item, the item equals the last enqueued, still-waiting item, and otherwise hands the item to Queue.put exactly once.",
                 note="E6 (queue.Queue put/get are critical sections calling _put/_get), atomic attribute loads, items' == is an equivalence. The equality law of event objects is decided structurally (dataclass lemmas from the AST) plus a bounded all-pairs battery, not by SMT.", ref="4/C16"),
+    "C11": dict(text="queue_event queues iff the filter is None or the event is an instance of a filter class; get_event_mask_from_filter: loop invariant + postcondition 'needs(class, bit, recursive) => bit in mask' for all 13 classes x 10 kernel bits, with `needs` computed from the statement's translation table (not from the function); default mask and ABI constants as lemmas.",
+                note="The translation table is C03's proved postcondition; E8 (the kernel reports a record only if its bit is requested). Over-approximate masks are allowed. The unchanged tree violated 33 (class<-bit) obligations: repaired by a fix: commit.", ref="4/C11"),
 }
 
 NOT_APPLICABLE = {
